@@ -7,6 +7,7 @@ import (
 	"go/types"
 	"os"
 	"strings"
+	"time"
 
 	"gosmt/smt"
 
@@ -92,6 +93,7 @@ type Interp struct {
 	now         *smt.Term // frozen clock: symbolic instant + harness-controlled advances
 	timerBudget int
 
+	started    time.Time
 	uniques    []uniqueEntry
 	freshTerms []*smt.Term
 	stubs      map[string]Value
@@ -675,6 +677,9 @@ func (in *Interp) runFrame(fr *frame) {
 		jumped := false
 		for _, instr := range b.Instrs[nphi:] {
 			in.steps++
+			if in.steps&1023 == 0 && time.Since(in.started) > in.eng.PathTimeout {
+				panic(unwindFail{fmt.Sprintf("path time budget %s exceeded at %s", in.eng.PathTimeout, in.site())})
+			}
 			if in.steps > in.eng.MaxSteps {
 				panic(unwindFail{fmt.Sprintf("step budget %d exceeded at %s", in.eng.MaxSteps, in.site())})
 			}
